@@ -2,6 +2,7 @@ package main
 
 import (
 	"fmt"
+	"math"
 	"strconv"
 	"strings"
 
@@ -217,17 +218,20 @@ func (x *Exec) sprint(args []Value, ln bool) Str {
 
 // atomLen returns a symbolic length for a string holding atoms: #bytes + Σ len(atom), 1..20 bytes per atom.
 func (x *Exec) atomLen(s Str) Int {
-	nb, na := 0, 0
+	lo, hi := 0, 0
 	for _, b := range s.Sym {
-		if b.Atom != 0 {
-			na++
-		} else {
-			nb++
+		switch b.Atom {
+		case 0:
+			lo, hi = lo+1, hi+1
+		case atomQuo:
+			lo, hi = lo+2+len(b.S.Args), hi+2+4*len(b.S.Args)
+		default:
+			lo, hi = lo+1, hi+24
 		}
 	}
 	l := x.freshVar("atomlen", 64)
 	tt := x.tt
-	x.addPC(tt.And(tt.Cmp(OpSle, tt.Const(64, uint64(nb+na)), l), tt.Cmp(OpSle, l, tt.Const(64, uint64(nb+24*na)))))
+	x.addPC(tt.And(tt.Cmp(OpSle, tt.Const(64, uint64(lo)), l), tt.Cmp(OpSle, l, tt.Const(64, uint64(hi)))))
 	return Int{W: 64, Signed: true, S: l}
 }
 
@@ -291,7 +295,21 @@ func (x *Exec) concretizeStr(bs []Int, m Model) (string, bool) {
 			}
 			sb.WriteString(strconv.FormatInt(int64(v), 10))
 		case b.Atom == atomFlt:
-			return "", false
+			v, ok := m.Eval(b.S, cache)
+			if !ok {
+				return "", false
+			}
+			sb.WriteString(strconv.FormatFloat(math.Float64frombits(v), 'g', -1, 64))
+		case b.Atom == atomQuo:
+			raw := make([]byte, len(b.S.Args))
+			for i, a := range b.S.Args {
+				v, ok := m.Eval(a, cache)
+				if !ok {
+					return "", false
+				}
+				raw[i] = byte(v)
+			}
+			sb.WriteString(strconv.Quote(string(raw)))
 		case b.S != nil:
 			v, ok := m.Eval(b.S, cache)
 			if !ok {
